@@ -193,6 +193,17 @@ def scenarios():
     add("writer:plot-png", _writer(lambda t, w: _figs().export(
         str(t), confirm_overwrite=w)), "plots.png",
         outputs=lambda t: ["plots_first.png", "plots_second.png"], cost="plot")
+    def export_split(t, w):
+        from evo.tools.settings import SETTINGS
+        old = SETTINGS.plot_split
+        dict.__setitem__(SETTINGS, "plot_split", True)
+        try:
+            _figs().export(str(t), confirm_overwrite=w)
+        finally:
+            dict.__setitem__(SETTINGS, "plot_split", old)
+    # non-default setting plot_split: a .pdf target becomes one file per figure
+    add("writer:plot-pdf-split", _writer(export_split), "plots.pdf",
+        outputs=lambda t: ["plots_first.pdf", "plots_second.pdf"], cost="plot")
     add("writer:serialize", _writer(lambda t, w: _figs().serialize(
         str(t), confirm_overwrite=w)), "plots.pickle", cost="plot")
 
